@@ -21,6 +21,7 @@ from ..sym import DIFFERENT, EQUAL, UNDECIDED, Translator, Unsupported, Vocabula
 from ..trial import MoveSpec, Scenario
 
 _MASS_FORMS = tuple(f"{a}.{g}{sl}" for a in ("atoms", "context.atoms") for g in ("get_masses()",) for sl in ("[:, None]", "[:, np.newaxis]", ".reshape(-1, 1)", "[..., None]"))
+EKf = sp.Function("EK")  # kinetic energy of a momentum field (uninterpreted; quadratic: EK(s·p) = s²·EK(p))
 Ffun = sp.Function("F")
 Con = sp.Function("ConstrainPositions")
 ConM = sp.Function("ConstrainMomenta")
@@ -35,6 +36,7 @@ class AtomsState:
         self.names = atoms_names
         self.force_evals = []
         self.events = []
+        self.ke_function = False  # model get_kinetic_energy() as EK(current momenta) instead of a free symbol
 
     def hook(self, tr, node):
         if isinstance(node, ast.Attribute) and norm(node) in [f"{a}.positions" for a in self.names]:
@@ -47,6 +49,8 @@ class AtomsState:
                 return self.x
             if f == f"{a}.get_momenta":
                 return self.p
+            if f == f"{a}.get_kinetic_energy" and self.ke_function:
+                return EKf(self.p)
             if f == f"{a}.get_forces":
                 self.force_evals.append(self.x)
                 self.events.append(("forces", self.x))
@@ -75,6 +79,61 @@ def _kw(tr, call, name, pos, default):
         v = tr.tr(call.args[pos])
         return True if v is sp.true else (False if v is sp.false else v)
     return default
+
+
+def _split_momenta(e, G):
+    """momentum expression = (global scalar factor) · core, core ∈ {G·per-atom factors, ConM(core)}; the constraint
+    map is linear (scalars move out) and idempotent."""
+    e = sp.sympify(e)
+    if isinstance(e, ConM):
+        s_, c_ = _split_momenta(e.args[0], G)
+        return s_, (c_ if isinstance(c_, ConM) else ConM(c_))
+    def vec_like(f):  # G outside any EK(...): a per-atom field, not a number
+        return f.replace(lambda x: isinstance(x, EKf), lambda x: sp.Symbol("ek_", positive=True)).has(G)
+
+    if e.is_Mul:
+        vec = [f for f in e.args if vec_like(f)]
+        if len(vec) != 1:
+            raise Unsupported(f"momenta `{e}` are not (scalar)·(one draw)")
+        rest = sp.Mul(*[f for f in e.args if not vec_like(f)])
+        s_, c_ = _split_momenta(vec[0], G)
+        # per-atom factors (the masses) belong to the core; everything else (constants, temperatures, EK-dependent
+        # rescaling) is one number for the whole system and moves out of ConM / EK
+        msym_ = [x for x in rest.free_symbols if x.name == "m"]
+        facs = sp.powsimp(rest).as_ordered_factors()
+        local = sp.Mul(*[f for f in facs if any(f.has(x) for x in msym_) and not f.has(EKf)])
+        glob = sp.simplify(rest / local)
+        if local != 1:
+            c_ = ConM(sp.simplify(c_.args[0] * local)) if isinstance(c_, ConM) else sp.simplify(c_ * local)
+        return s_ * glob, c_
+    if vec_like(e) and not e.has(EKf):
+        return sp.Integer(1), e
+    raise Unsupported(f"momenta `{e}` are not (scalar)·(one draw)")
+
+
+def _ek_normal(e, G):
+    """rewrite every EK(arg) to (scalar)²·EK(core)"""
+    def one(arg):
+        s_, c_ = _split_momenta(arg, G)
+        s_ = _ek_normal(s_, G)
+        return s_**2 * EKf(c_)
+
+    prev = None
+    cur = sp.sympify(e)
+    for _ in range(6):
+        if cur == prev:
+            break
+        prev = cur
+        cur = cur.replace(lambda x: isinstance(x, EKf) and not _is_core(x.args[0], G), lambda x: one(x.args[0]))
+    return cur
+
+
+def _is_core(e, G):
+    try:
+        s_, c_ = _split_momenta(e, G)
+    except Unsupported:
+        return True
+    return s_ == 1 and c_ == e
 
 
 def _decide(L, rule, cons, where, got, ref, what):
@@ -213,8 +272,31 @@ def run(prog: Program, L: Ledger) -> None:
         })
         vocab.bind("forced", sp.true if forced else sp.false)
         st = AtomsState(sp.Symbol("x"), sp.Symbol("p0"))
+        st.ke_function = True
         t = Translator(vocab)
         t.hooks.append(st.hook)
+        Gs = vocab.sym("G", real=True)
+        msym = vocab.sym("m", positive=True)
+
+        def ke_hook(tr, node, _G=Gs, _m=msym):
+            # a hand-written kinetic energy: np.sum(p*p/m) (the caller supplies the 1/2) of a momentum expression p
+            if isinstance(node, ast.Call) and norm(node.func) in ("np.sum", "numpy.sum", "sum") and len(node.args) == 1:
+                inner = sp.sympify(tr.tr(node.args[0]))
+                cands = [v for v in list(tr.env.values()) + [st.p] if isinstance(v, sp.Basic) and v.has(_G)]
+                for pexp in cands:
+                    q = sp.simplify(inner * _m / pexp**2)
+                    if q.is_number and q != 0:
+                        return 2 * q * EKf(pexp)
+            if isinstance(node, ast.Call) and isinstance(node.func, ast.Attribute) and node.func.attr == "sum" and not node.args:
+                inner = sp.sympify(tr.tr(node.func.value))
+                cands = [v for v in list(tr.env.values()) + [st.p] if isinstance(v, sp.Basic) and v.has(_G)]
+                for pexp in cands:
+                    q = sp.simplify(inner * _m / pexp**2)
+                    if q.is_number and q != 0:
+                        return 2 * q * EKf(pexp)
+            return None
+
+        t.hooks.append(ke_hook)
 
         def sub_hook(tr, node):
             # x[:, None] broadcasting is the identity at this level of abstraction
@@ -230,10 +312,25 @@ def run(prog: Program, L: Ledger) -> None:
         G, T, kB, mm = vocab.sym("G", real=True), vocab.sym("T", positive=True), vocab.sym("kB", positive=True), vocab.sym("m", positive=True)
         base = G * sp.sqrt(mm * kB * T)
         if forced:
-            Ek, nd = vocab.sym("Ekin", positive=True), vocab.sym("ndof", positive=True)
-            refm = base * sp.sqrt(kB * T / (2 * Ek / nd + sp.Float("1e-15")))
-        else:
-            refm = base
+            # the clause is about the result: the momenta left on the atoms have kinetic temperature T — whatever the
+            # constraints did to the draw.  Decided with EK quadratic and the constraint map linear and idempotent.
+            nd = vocab.sym("ndof", positive=True)
+            try:
+                scal, core = _split_momenta(sp.sympify(st.p), G)
+                ek_final = sp.simplify(_ek_normal(scal**2 * EKf(core), G))
+            except Unsupported as exc:
+                raise AnalysisError(f"maxwell_boltzmann_distribution[forced]: {exc}") from exc
+            ek_final = ek_final.xreplace({f_: 0 for f_ in ek_final.atoms(sp.Float) if abs(f_) < 1e-9})
+            target = nd * kB * T / 2
+            unk = [k for k, s_ in vocab.unknown.items() if s_ in ek_final.free_symbols]
+            if unk:
+                raise AnalysisError(f"maxwell_boltzmann_distribution: unrecognised sources {unk[:3]}")
+            okT = sp.simplify(ek_final - target) == 0
+            L.check(okT, "MB", "maxwell_boltzmann_distribution[forced=True]", mb.where,
+                    f"with forced=True the kinetic energy of the momenta left on the atoms is `{ek_final}`, not ndof·kB·T/2: the rescaling factor is computed from a kinetic energy other than that of the momenta actually on the atoms (after constraints)",
+                    "forced=True with FixAtoms/FixCom: the kinetic temperature after the refresh is not the target temperature", "forced")
+            continue
+        refm = base
         got = st.p
         # strip the constraint wrapper (momenta are set through the constraint-aware API)
         for _ in range(6):
@@ -246,7 +343,12 @@ def run(prog: Program, L: Ledger) -> None:
         _decide(L, "MB", f"maxwell_boltzmann_distribution[forced={forced}]", mb.where, got, refm,
                 "momenta are not standard-normal draws from the simulation generator scaled by sqrt(m·kB·T)" + (" and by sqrt(T_target/T_actual)" if forced else ""))
 
-    # ------------------------------------------------------------------ KE (abstract heap)
+    check_kinetic_reference(prog, L, "KE")
+
+
+def check_kinetic_reference(prog: Program, L: Ledger, rule: str) -> None:
+    """On every abstract path of a Hamiltonian trial the kinetic energy stored for the acceptance test is that of the
+    momenta present when the integrator starts (shared with C02: the K0 its Hamiltonian formula reads)."""
     hmc = prog.cls("HamiltonianCanonical")
     hmove = prog.cls("HamiltonianDisplacementMove")
     sc = Scenario(prog, hmc, [MoveSpec(hmove.name)], 1)
@@ -272,8 +374,8 @@ def run(prog: Program, L: Ledger) -> None:
         raise AnalysisError("KE: no integrate() call was reached in the Hamiltonian scenario")
     if seen["bad"]:
         w, d, pth = seen["bad"][0]
-        L.violation("KE", "HamiltonianDisplacementMove.attempt_displacement:last_kinetic_energy", w,
+        L.violation(rule, "HamiltonianDisplacementMove.attempt_displacement:last_kinetic_energy", w,
                     f"when the integrator starts, {d}: the total-energy acceptance test compares against the wrong kinetic energy",
                     f"abstract path {' ; '.join(pth)}", "last_kinetic_energy")
     else:
-        L.ok("KE", "HamiltonianDisplacementMove.attempt_displacement:last_kinetic_energy", hmove.where, f"{seen['n']} integrate() calls on {stats['paths']} paths")
+        L.ok(rule, "HamiltonianDisplacementMove.attempt_displacement:last_kinetic_energy", hmove.where, f"{seen['n']} integrate() calls on {stats['paths']} paths")
